@@ -251,11 +251,99 @@ impl Monitor for LifeMonitor {
     }
 }
 
+/// Lifecycle bookkeeping judged on a complete run of a batch tracker under an explored schedule: the model
+/// is rebuilt from the records themselves (which track every detection was recorded in), then compared with
+/// what the tracker reports afterwards (epochs, idle tracks, expired tracks handed out by wasted()).
+pub fn batch_lifecycle(ro: &super::c06::RunOut, bs: &[super::c06::Batch], cfg: &TrkCfg) -> Result<(), (String, String)> {
+    let bad = |k: &str, w: String| Err((format!("lifecycle/{k}"), format!("[batch run] {w}")));
+    let max_idle = cfg.max_idle;
+    let mut m = Model::default();
+    if ro.obs.len() != bs.len() {
+        return bad("record-count", format!("{} result sets for {} batches", ro.obs.len(), bs.len()));
+    }
+    for (k, (got, b)) in ro.obs.iter().zip(bs.iter()).enumerate() {
+        for (s, dets) in b {
+            *m.epochs.entry(*s).or_insert(0) += 1;
+            let now = m.epoch(*s);
+            let Some((_, recs)) = got.iter().find(|x| x.0 == *s) else { return bad("record-count", format!("batch #{k}: no result for scene {s}")) };
+            if recs.len() != dets.len() {
+                return bad("record-count", format!("batch #{k} scene {s}: {} records for {} detections", recs.len(), dets.len()));
+            }
+            for r in recs {
+                match m.tracks.get_mut(&r.id) {
+                    Some(t) => {
+                        if t.scene != *s {
+                            return bad("continuation", format!("batch #{k}: detection of scene {s} recorded in track {} of scene {}", r.id, t.scene));
+                        }
+                        if t.last + max_idle < now {
+                            return bad("expired-track-continued", format!("batch #{k} scene {s} epoch {now}: track {} last updated at {} (max idle {max_idle}) was continued", r.id, t.last));
+                        }
+                        if t.last == now {
+                            return bad("continuation", format!("batch #{k} scene {s}: two detections of one call in track {}", r.id));
+                        }
+                        t.length += 1;
+                        t.last = now;
+                        if r.length != t.length || r.epoch != now {
+                            return bad("length-or-epoch", format!("batch #{k} scene {s}: track {} record length {} epoch {}, {} detections were attached, epoch {now}", r.id, r.length, r.epoch, t.length));
+                        }
+                    }
+                    None => {
+                        if r.length != 1 || r.epoch != now {
+                            return bad("length-or-epoch", format!("batch #{k} scene {s}: new track {} has length {} epoch {} (scene epoch {now})", r.id, r.length, r.epoch));
+                        }
+                        m.tracks.insert(r.id, MT { scene: *s, last: now, length: 1, pos: '?', place: Place::Held });
+                    }
+                }
+            }
+        }
+    }
+    for (s, e) in &m.epochs {
+        if ro.fin.epochs.get(s) != Some(e) {
+            return bad("epoch", format!("current epoch of scene {s} is {:?}, expected {e}", ro.fin.epochs.get(s)));
+        }
+        let mut exp: Vec<(u64, usize, usize)> = m.tracks.iter().filter(|(_, t)| t.scene == *s && !m.expired(t, max_idle) && t.last != *e).map(|(id, t)| (*id, t.last, t.length)).collect();
+        exp.sort();
+        let mut got = ro.fin.idle.get(s).cloned().unwrap_or_default();
+        got.sort();
+        if got != exp {
+            let extra_expired = got.iter().any(|g| m.tracks.get(&g.0).map_or(false, |t| m.expired(t, max_idle)));
+            return bad(if extra_expired { "idle-lists-expired-track" } else { "idle-set" }, format!("idle_tracks(scene {s}) = (id,last epoch,length) {got:?}, expected {exp:?} (scene epoch {e})"));
+        }
+    }
+    let mut exp: Vec<(u64, u64, usize, usize)> = m.tracks.iter().filter(|(_, t)| m.expired(t, max_idle)).map(|(id, t)| (*id, t.scene, t.last, t.length)).collect();
+    exp.sort();
+    let mut got = ro.fin.wasted.clone();
+    got.sort();
+    if got != exp {
+        return bad("wasted-set", format!("wasted() returned (id,scene,last epoch,length) {got:?}, expected {exp:?}"));
+    }
+    Ok(())
+}
+
+fn run_schedules(rep: &Report, tier: Tier) {
+    let mut scen = vec![];
+    let slice = tier.pick(2.0f64, 60.0f64);
+    for kind in [Kind::BatchSort, Kind::BatchVisualSort] {
+        // (voting shards, max idle, batch variant, discipline, largest deviation bound)
+        let plan: Vec<(usize, usize, usize, usize, usize)> = vec![(2, 0, 1, 1, tier.pick(2, 4)), (2, 1, 1, 1, tier.pick(2, 4)), (2, 2, 1, 1, tier.pick(2, 4)), (2, 2, 0, 1, tier.pick(2, 4)), (1, 0, 4, 1, tier.pick(2, 4))];
+        for (vs, max_idle, variant, discipline, max_bound) in plan {
+            let mut cfg = TrkCfg::new(kind);
+            cfg.shards = 1;
+            cfg.voting_shards = vs;
+            cfg.max_idle = max_idle;
+            let bs = super::c06::batches(variant);
+            let c2 = cfg.clone();
+            scen.push(super::c06::explore_batch(rep, "lifecycle", &cfg, variant, discipline, false, max_bound, slice, &|o| batch_lifecycle(o, &bs, &c2)));
+        }
+    }
+    rep.extra("schedule_part", json!(scen));
+}
+
 pub fn run(tier: Tier) -> Report {
     let rep = Report::new("C03", tier);
     let ls = lists();
-    rep.set_rule("every history of depth <= D over {predict(scene in {0,1}, [] | [P] | [Q] | [P,Q]), skip(0,1), skip(1,1), skip(0,2), wasted, clear_wasted, set_auto_waste(1)} with idle_tracks(both scenes), current epochs, active/wasted shard statistics and both store dumps observed after every step, on three instances with collection period 100 / 0 / 1 in lock-step; reference model: scene epochs, track -> (scene, last epoch, length, place). Sort at depth 4 (quick) / 5 (thorough) for max_idle 0,1,2 x shards 1,2 (quick: 2 shards only with max_idle 1); the other three trackers at depth 3 / 4. Non-trivial = history with an expiry (a skip or an empty predict after a track exists).");
-    rep.assume("identical / disjoint boxes, so association is unambiguous; sequential use under the default schedule");
+    rep.set_rule("every history of depth <= D over {predict(scene in {0,1}, [] | [P] | [Q] | [P,Q]), skip(0,1), skip(1,1), skip(0,2), wasted, clear_wasted, set_auto_waste(1)} with idle_tracks(both scenes), current epochs, active/wasted shard statistics and both store dumps observed after every step, on three instances with collection period 100 / 0 / 1 in lock-step; reference model: scene epochs, track -> (scene, last epoch, length, place). Sort at depth 4 (quick) / 5 (thorough) for max_idle 0,1,2 x shards 1,2 (quick: 2 shards only with max_idle 1); the other three trackers at depth 3 / 4. Schedule part (batch trackers, pipelined use: results retrieved by consumer threads while the next batch is submitted; 1-2 voting threads; max idle 0 / 1 / 2): every interleaving within a deviation bound of 2-3 multi-scene batches; the model is rebuilt from the records (which track each detection was recorded in) and compared with the epochs, idle tracks and expired tracks the tracker reports afterwards; no expired track continued, length = detections attached. Non-trivial = history with an expiry (a skip or an empty predict after a track exists).");
+    rep.assume("identical / disjoint boxes, so association is unambiguous; history part: sequential use under the default schedule; schedule part: bounded departures from the default schedule at named points");
     let mut total_h = 0u64;
     let mut total_s = 0u64;
     let mut cfgs: Vec<(TrkCfg, usize)> = vec![];
@@ -312,6 +400,7 @@ pub fn run(tier: Tier) -> Report {
         rep.extra(&format!("{}_maxidle{}_shards{}", cfg.kind.name(), cfg.max_idle, cfg.shards), json!({"histories":st.histories,"depth":depth,"alphabet":alpha.len()}));
     }
     rep.add(total_h, total_s * 3, total_h * 3, 0);
+    run_schedules(&rep, tier);
     rep.distinct_count(total_h);
     rep.sample(json!({"config":"Sort max_idle=1 shards=2","history":["predict(0,[P])","predict(0,[])","predict(0,[])","clear_wasted","wasted"],"variants":"period 100 / 0 / 1"}));
     rep
